@@ -4,14 +4,66 @@ from __future__ import annotations
 import sys
 
 
+RECORD = None            # {id(fn): list} of (fn, args, kwargs, repr(result)) while a worker collects calls for the replay phases
+REC_TOTAL = 6000
+REC_PER_FN = 100
+_per_fn = {}
+_NOT_PURE = {"tell"}     # prints; everything else that is recorded is a plain module-level function of the decoder packages
+_PURE_MODULES = ("pyModeS.decoder", "pyModeS.py_common", "pyModeS.extra.aero", "pyModeS.common")
+
+
+def _recordable(fn):
+    import inspect
+    f = inspect.unwrap(fn) if hasattr(fn, "__wrapped__") else fn
+    if not inspect.isfunction(f):
+        return False
+    mod = getattr(f, "__module__", "") or ""
+    return mod.startswith(_PURE_MODULES) and f.__name__ not in _NOT_PURE
+
+
 def call(fn, *a, **kw):
     """('ok', value) or ('exc', type_name, message) - never raises"""
+    slot = None
+    if RECORD is not None and _recordable(fn):
+        # reservoir sample of REC_PER_FN calls per function object over the WHOLE run (not just the first cases)
+        key = id(fn)
+        c = _per_fn.get(key, 0) + 1
+        _per_fn[key] = c
+        if c <= REC_PER_FN:
+            slot = -1
+        elif _rr.random() < REC_PER_FN / c:
+            slot = _rr.randrange(REC_PER_FN)
+        if slot is not None:
+            import copy
+            try:
+                a0, k0 = copy.deepcopy(a), copy.deepcopy(kw)
+            except Exception:
+                slot = None
     try:
-        return ("ok", fn(*a, **kw))
+        r = ("ok", fn(*a, **kw))
     except BaseException as e:  # noqa
         if isinstance(e, (KeyboardInterrupt, SystemExit, MemoryError)) or type(e).__name__ == "CaseTimeout":
             raise
-        return ("exc", type(e).__name__, str(e)[:200])
+        r = ("exc", type(e).__name__, str(e)[:200])
+    if slot is not None:
+        lst = RECORD.setdefault(id(fn), [])
+        item = (fn, a0, k0, repr(r))
+        if slot == -1 or slot >= len(lst):
+            lst.append(item)
+        else:
+            lst[slot] = item
+    return r
+
+
+import random as _random
+_rr = _random.Random(12345)
+
+
+def recorded():
+    out = []
+    for lst in (RECORD or {}).values():
+        out.extend(lst)
+    return out
 
 
 def rebind(orig, new, prefix="pyModeS"):
